@@ -249,6 +249,10 @@ pub fn check(case: &Case, obs: &mut Obs) -> Result<(), Failure> {
             check_byte(&mem, &m, *a, usize::MAX)?;
         }
     }
+    // point queries at both ends of the address space (nothing is mapped there; no wrap involved)
+    for a in [0u64, 1, u64::MAX, u64::MAX - 1, u64::MAX - 7] {
+        check_byte(&mem, &m, a, usize::MAX)?;
+    }
     // wide reads at every address around region seams
     let mut seams: Vec<u64> = Vec::new();
     let mut prev: Option<(u64, usize)> = None;
